@@ -104,6 +104,7 @@ ReadOK(rd) == LET res == IF rd.k = "latest" THEN LatestRes(rd.mb) ELSE GetRes(rd
                   /\ res.r = "ok" => rd.msg = res.msg
 TrProbe == /\ Is("probe") /\ Ev.r = "ok"
            /\ \A k \in DOMAIN Ev.reads : ReadOK(Ev.reads[k])
+           /\ ("pseudo" \in DOMAIN Ev) => \A k \in DOMAIN Ev.pseudo : Ev.pseudo[k].r = ByIdRes(Ev.pseudo[k].mb, Ev.pseudo[k].id)
            /\ Len(Ev.lists) = Cardinality(VisitRes) /\ ToSet(Ev.lists) = VisitRes
            /\ UNCHANGED svars /\ SnapOK(boxes) /\ Mark
 (* closing and reopening the file store on the same path changes nothing (C10) *)
